@@ -729,7 +729,7 @@ pub fn run_batch(property: &'static str, seed: u64, start: u64, count: u64, tier
         if budget_ms > 0 && (simlibc::real_now_ns() - t0) / 1_000_000 > budget_ms {
             break;
         }
-        if property == "C07" && run % 3 == 2 {
+        if (property == "C07" && run % 3 == 2) || (property == "C06" && run % 8 == 7) {
             // race row
             let rp = race::gen_plan(seed, run);
             let rex = race::execute(&rp);
@@ -744,7 +744,7 @@ pub fn run_batch(property: &'static str, seed: u64, start: u64, count: u64, tier
                 sum.probe("race_quiescent_repeat_was_cache_hit", 1);
                 sum.distinct_hash(rex.trace_hash);
             }
-            for p in rex.problems {
+            for p in rex.problems.into_iter().filter(|p| p.property == property || p.clause == "harness_thread_panicked") {
                 let key = key_of(&p);
                 if !sum.class_first(&key) || sum.violations.len() >= 12 {
                     continue;
@@ -752,13 +752,13 @@ pub fn run_batch(property: &'static str, seed: u64, start: u64, count: u64, tier
                 let mut rp2 = rp.clone();
                 rp2.sched = crate::c08::SchedSpec { kind: "replay".into(), a: 0, len: rp.sched.len, seed: rp.sched.seed, yield_on_release: rp.sched.yield_on_release, choices: rex.choices.clone() };
                 sum.violations.push(Violation {
-                    property: "C07".into(),
+                    property: property.into(),
                     clause: p.clause.clone(),
                     facts: p.facts.clone(),
                     message: p.message.clone(),
                     seed,
                     run,
-                    replay: serde_json::to_value(race::RReplay { check: "C07".into(), race_plan: rp2, clause: p.clause.clone() }).unwrap(),
+                    replay: serde_json::to_value(race::RReplay { check: property.into(), race_plan: rp2, clause: p.clause.clone() }).unwrap(),
                     minimised: false,
                     original: None,
                 });
@@ -825,8 +825,8 @@ pub fn replay(property: &'static str, v: &serde_json::Value, sum: &mut Summary) 
         let r: race::RReplay = serde_json::from_value(v.clone()).map_err(|e| e.to_string())?;
         let rex = race::execute(&r.race_plan);
         sum.runs = 1;
-        for p in rex.problems {
-            sum.violations.push(Violation { property: "C07".into(), clause: p.clause.clone(), facts: p.facts.clone(), message: p.message, seed: 0, run: 0, replay: v.clone(), minimised: false, original: None });
+        for p in rex.problems.into_iter().filter(|p| p.property == property) {
+            sum.violations.push(Violation { property: property.into(), clause: p.clause.clone(), facts: p.facts.clone(), message: p.message, seed: 0, run: 0, replay: v.clone(), minimised: false, original: None });
         }
         return Ok(());
     }
@@ -897,11 +897,22 @@ pub mod race {
             pre.push(ApiOp::Flush { force: true });
             k = *rng.pick(&[1usize, 1, 2]);
         }
+        // another quarter runs on a tiny index that the prefix fills up with superseded versions, so that the writer's
+        // insert goes through tombstone compaction (which renumbers the index's internal slots) while the search runs
+        let tiny = !crowded && rng.chance(1, 3);
+        if tiny {
+            cfg.capacity = (n_pre as usize + 1 + rng.below(3) as usize).max(3);
+            let used = pre.iter().filter(|o| matches!(o, ApiOp::Insert { .. })).count();
+            for j in used..cfg.capacity {
+                w += 1;
+                pre.push(ApiOp::Insert { id: (j as u64) % n_pre, vec: bits(&gen_vector(&mut rng, cfg.dim, w)), meta: gen_meta(&mut rng, w) });
+            }
+        }
         let mut writer = Vec::new();
         for _ in 0..rng.range(1, 2) {
             let id = rng.below(n_pre + 1);
             w += 1;
-            let op = match rng.below(if crowded { 5 } else { 10 }) {
+            let op = match rng.below(if crowded { 5 } else if tiny { 7 } else { 10 }) {
                 0..=4 => {
                     // close to the query so that it belongs inside the cached boundary
                     let eps = if crowded { *rng.pick(&[0.02f32, 0.05, 0.1]) } else { *rng.pick(&[0.0f32, 0.01, 0.2]) };
@@ -942,12 +953,18 @@ pub mod race {
             }
             let qf = unbits(&p.q);
             let mut bodies: Vec<Box<dyn FnOnce() + Send + 'static>> = Vec::new();
+            let seen: Arc<std::sync::Mutex<Vec<Vec<(u64, f32)>>>> = Arc::new(std::sync::Mutex::new(Vec::new()));
             {
                 let b2 = Arc::clone(&b);
                 let (q2, k, n) = (qf.clone(), p.k, p.searches);
+                let seen2 = Arc::clone(&seen);
                 bodies.push(Box::new(move || {
                     for _ in 0..n {
-                        let _ = b2.engine.knn_search_with_ef_detailed_scoped(&q2, k, None, 0);
+                        if let Ok((r, _)) = b2.engine.knn_search_with_ef_detailed_scoped(&q2, k, None, 0) {
+                            if let Ok(mut g) = seen2.lock() {
+                                g.push(r.into_iter().map(|x| (x.doc_id, x.distance)).collect());
+                            }
+                        }
                     }
                 }));
             }
@@ -968,8 +985,56 @@ pub mod race {
                 std::mem::forget(b);
                 return ex;
             }
-            // quiescent repeat
             let metric = p.cfg.metric;
+            // ---- C06 under concurrency: every (document, distance) pair a racing search returned must be the distance
+            // to SOME version that document had during the run (never another document's distance under its id)
+            {
+                // the forms the engine may have stored for an input: the input itself (Euclidean; cosine / inner product
+                // inside the 0.98-1.02 "already normalised" band) and / or its normalisation (outside the band)
+                let stored_forms = |v: &[u32]| -> Vec<Vec<f32>> {
+                    let f = unbits(v);
+                    if metric == 1 {
+                        return vec![f];
+                    }
+                    let ns = f.iter().map(|x| (*x as f64) * (*x as f64)).sum::<f64>();
+                    let n = ns.sqrt();
+                    let mut out = Vec::new();
+                    if (0.9795..=1.0205).contains(&ns) {
+                        out.push(f.clone());
+                    }
+                    if !(0.9805..=1.0195).contains(&ns) && n > 0.0 && n.is_finite() {
+                        out.push(f.iter().map(|x| (*x as f64 / n) as f32).collect());
+                    }
+                    out
+                };
+                let mut versions: BTreeMap<u64, Vec<Vec<f32>>> = BTreeMap::new();
+                for op in p.pre.iter().chain(p.writer.iter()) {
+                    match op {
+                        ApiOp::Insert { id, vec, .. } => versions.entry(*id).or_default().extend(stored_forms(vec)),
+                        ApiOp::BulkLoad { docs } => {
+                            for (id, vec, _) in docs {
+                                versions.entry(*id).or_default().extend(stored_forms(vec));
+                            }
+                        }
+                        _ => {}
+                    }
+                }
+                let responses = seen.lock().map(|g| g.clone()).unwrap_or_default();
+                'resp: for res in &responses {
+                    for (id, d) in res {
+                        let ok = versions.get(id).map(|vs| vs.iter().any(|v| { let (lo, hi) = ref_distance(metric, &qf, v); (*d as f64) >= lo && (*d as f64) <= hi })).unwrap_or(false);
+                        if !ok {
+                            let mut f = BTreeMap::new();
+                            f.insert("mode".to_string(), "searcher_writer_race".to_string());
+                            f.insert("metric".to_string(), metric.to_string());
+                            f.insert("known_document".to_string(), versions.contains_key(id).to_string());
+                            ex.problems.push(Problem { property: "C06", clause: "wrong_distance_under_race".into(), message: format!("a search racing with a writer returned id {} at distance {}, which is the distance to no version that document ever had (results {:?})", id, d, res), facts: f });
+                            break 'resp;
+                        }
+                    }
+                }
+            }
+            // quiescent repeat
             let written: BTreeSet<u64> = p
                 .writer
                 .iter()
